@@ -271,11 +271,18 @@ class Life:
         c0 = counters()
         t = corpus.build(ev["tmpl"], ev.get("route", 0))
         objs, onames = t["objs"], t["object_names"]
-        opts = ffcx.options.get_options(dict(corpus.OPTS[ev["opt"]]))
+        # one options dict per option vector and process, handed to every generation (as ffcx.main does for all the
+        # files of one command line): generation must not leave anything behind in it
+        if not hasattr(self, "_optdicts"):
+            self._optdicts = {}
+        if ev["opt"] not in self._optdicts:
+            self._optdicts[ev["opt"]] = ffcx.options.get_options(dict(corpus.OPTS[ev["opt"]]))
+        opts = self._optdicts[ev["opt"]]
         ns = ev["tmpl"][5:] if ev["tmpl"].startswith("demo:") else "ns"
         sigs = [object_signature(o) for o in objs]
         out_ids = used_ids(objs)
-        key = [sigs, names_by_position(objs, onames), options_key(opts), ns]
+        # (the input is the option vector that was asked for, not whatever the shared dict holds by now)
+        key = [sigs, names_by_position(objs, onames), options_key(ffcx.options.get_options(dict(corpus.OPTS[ev["opt"]]))), ns]
         out = {"sigkey": sha1(json.dumps(key)), "nobjs": len(objs), "ids": out_ids,
                # UFL orders some operands by the decimal *string* of these ids (ufl/sorting.py, _cmp_terminal_by_repr)
                "id_lex_ok": sorted(out_ids["mesh"]) == sorted(out_ids["mesh"], key=str)}
